@@ -34,13 +34,13 @@ Print Assumptions C20_model_holds.
    is in the class, and the decider accepts the model's output *)
 Open Scope N_scope.
 Definition ex20_A : schema :=
-  [mkTable 0 [mkCol 0 (mkTy 0 []) false true None; mkCol 1 (mkTy 3 [20]) true false (Some (DLit [53])); mkCol 2 (mkTy 5 [10;2]) true false None]
+  [mkTable 0 [mkCol 0 (mkTy 0 []) false true None true; mkCol 1 (mkTy 3 [20]) true false (Some (DLit [53])) true; mkCol 2 (mkTy 5 [10;2]) true false None true]
              [Uq 1 [1]; Ix 2 [2;1] false] [mkFk 0 [2] 0 [0] no_opts true; mkFk 1 [1] 0 [0] no_opts true];
-   mkTable 1 [mkCol 0 (mkTy 0 []) false true None] [] []].
+   mkTable 1 [mkCol 0 (mkTy 0 []) false true None true] [] []].
 Definition ex20_B : schema :=
-  [mkTable 0 [mkCol 0 (mkTy 0 []) false true None; mkCol 1 (mkTy 4 []) false false (Some (DExpr [39;54;39])); mkCol 3 (mkTy 9 []) true false None]
+  [mkTable 0 [mkCol 0 (mkTy 0 []) false true None true; mkCol 1 (mkTy 4 []) false false (Some (DExpr [39;54;39])) true; mkCol 3 (mkTy 9 []) true false None true]
              [Ix 1 [1] true] [mkFk 3 [3] 0 [0] no_opts true];
-   mkTable 2 [mkCol 0 (mkTy 0 []) false true None; mkCol 1 (mkTy 1 []) true false None] [Uq 20 [1]; Ix 21 [1;0] false] [mkFk 20 [1] 0 [0] no_opts true]].
+   mkTable 2 [mkCol 0 (mkTy 0 []) false true None true; mkCol 1 (mkTy 1 []) true false None true] [Uq 20 [1]; Ix 21 [1;0] false] [mkFk 20 [1] 0 [0] no_opts true]].
 Definition ex20_f : filt :=
   mkFilt [((NColumn 0 3, false, false), false); ((NIx 0 2, true, false), false); ((NFk 0 3, false, false), false)] true
          [(NTable 1, false); (NUq 0 1, false); (NFk 0 1, false)] true [RTabHasCol 9; RColFam 11; RFkTo 7].
